@@ -1176,3 +1176,78 @@ def effective_returns(ctx, cls: ClassInfo, name: str, depth=0):
             out.append((sp, v))
     return out
 
+
+def class_returns(ctx, cls: ClassInfo, name: str):
+    """(method, [(condition, value, SymPath)]): what the method `name` returns for objects of EXACTLY class `cls` - the method found
+    along the MRO, with the hooks it calls on self resolved in the class (self.h(...) -> the return value of the h that `cls`
+    sees, when that h is one expression) and the class-level constants it reads through self / cls replaced by the values `cls`
+    gives them.  A template method with per-class hooks and tables is seen, per class, as the plain method it stands for."""
+    f = ctx.prog.find_method(cls, name)
+    if f is None:
+        raise AnalysisError(f'{cls.qualname} has no method {name}')
+
+    class Fold(ast.NodeTransformer):
+        def __init__(self, depth=0):
+            self.depth = depth
+
+        def visit_Call(self, n):
+            self.generic_visit(n)
+            fn = n.func
+            if isinstance(fn, ast.Attribute) and isinstance(fn.value, ast.Name) and fn.value.id in ('self', 'cls') and self.depth < 4:
+                h = ctx.prog.find_method(cls, fn.attr)
+                if h is not None and h is not f and not h.is_abstract and not h.module.generated:
+                    rs = [v for _, v, sp_ in symex.returns(h) if sp_.end == 'return']
+                    if len(rs) == 1 and len(symex.returns(h)) == 1:
+                        try:
+                            b_ = bind_args(n, h, h.kind in ('method', 'classmethod'))
+                        except AnalysisError:
+                            return n
+                        v = G.substitute(rs[0], {k: w for k, w in b_.items() if k not in ('self', 'cls')}, recursive=False)
+                        return Fold(self.depth + 1).visit(v)
+            return n
+
+        def visit_Attribute(self, n):
+            self.generic_visit(n)
+            if isinstance(n.value, ast.Name) and n.value.id in ('self', 'cls') and isinstance(n.ctx, ast.Load) \
+                    and ctx.prog.find_class_attr(cls, n.attr) is not None:
+                ok, v = ctx.ce.try_eval(ast.Attribute(value=ast.Name(id='cls', ctx=ast.Load()), attr=n.attr, ctx=ast.Load()), cls.module, cls, {})
+                if ok and isinstance(v, (str, int, tuple, list)) and not isinstance(v, bool):
+                    try:
+                        return ast.parse(repr(v), mode='eval').body
+                    except SyntaxError:
+                        return n
+            return n
+
+        def visit_Subscript(self, n):
+            self.generic_visit(n)
+            if isinstance(n.value, (ast.Tuple, ast.List)) and isinstance(n.slice, ast.Constant) and isinstance(n.slice.value, int) \
+                    and -len(n.value.elts) <= n.slice.value < len(n.value.elts):
+                return n.value.elts[n.slice.value]
+            return n
+    if f.cls is not cls:
+        # an inherited (template) method: a copy of it specialised for this class - constants and hooks folded in every statement,
+        # loops over the folded tables unrolled - is executed symbolically instead of the shared body
+        import copy as _copy
+        from .model import FuncInfo as _FI
+        from . import normalize as _nz
+        node = _copy.deepcopy(f.node)
+        node.body = [ast.fix_missing_locations(Fold().visit(st)) for st in node.body]
+        nzr = ctx.prog.normalizer
+        if nzr is not None:
+            try:
+                body = nzr.unroll_block(list(node.body), f)
+                body = _nz.canon_block(body)
+                node.body = body or node.body
+            except Exception:
+                pass
+        ast.fix_missing_locations(node)
+        spec = _FI(f.module, node, cls)
+        out = []
+        for c_, v_, sp_ in symex.returns(spec):
+            out.append((c_, ast.fix_missing_locations(Fold().visit(clone(v_))) if v_ is not None else v_, sp_))
+        return spec, out
+    out = []
+    for c_, v_, sp_ in symex.returns(f):
+        out.append((c_, ast.fix_missing_locations(Fold().visit(clone(v_))) if v_ is not None else v_, sp_))
+    return f, out
+
